@@ -159,7 +159,9 @@ class FrameClasses:
         self.cache = {}
 
     def classify(self, code):
-        r = self.cache.get(code)
+        # keyed by id(): hashing a code object hashes its bytecode and constants on every lookup.
+        # The code object is kept alive inside the entry, so its id cannot be reused.
+        r = self.cache.get(id(code))
         if r is None:
             fn = code.co_filename
             if fn == "<string>":
@@ -172,22 +174,127 @@ class FrameClasses:
             h = 0
             for ch in f"{os.path.basename(fn)}:{code.co_name}:{code.co_firstlineno}":
                 h = (h * 131 + ord(ch)) % 1000003
-            r = (cls, h)
-            self.cache[code] = r
+            r = (cls, h, code)
+            self.cache[id(code)] = r
         return r
+
+
+# ---------------------------------------------------------------------------
+# instruction-level pre-emption in the publish / check-then-act files
+# ---------------------------------------------------------------------------
+HOT_FILES = ("experiment_evaluator.py", "wraper_functions.py")
+_HOT_TOOL = 4
+_hot_installed = []
+
+
+def _code_objects_of(module, filename):
+    import types
+
+    seen, out, todo = set(), [], []
+
+    def add_fn(f):
+        f = getattr(f, "__func__", f)
+        if isinstance(f, property):
+            for g in (f.fget, f.fset, f.fdel):
+                if g is not None:
+                    add_fn(g)
+            return
+        f = getattr(f, "__wrapped__", f)
+        c = getattr(f, "__code__", None)
+        if isinstance(c, types.CodeType):
+            todo.append(c)
+
+    for v in list(vars(module).values()):
+        if isinstance(v, type):
+            for w in list(vars(v).values()):
+                add_fn(w)
+        else:
+            add_fn(v)
+    while todo:
+        c = todo.pop()
+        if id(c) in seen or c.co_filename != filename:
+            continue
+        seen.add(id(c))
+        out.append(c)
+        todo.extend(k for k in c.co_consts if isinstance(k, types.CodeType))
+    return out
+
+
+def install_hot_instrumentation(fc):
+    """Every bytecode instruction of the functions defined in experiment_evaluator.py / wraper_functions.py becomes a
+    pre-emption point (sys.monitoring INSTRUCTION events enabled locally on those code objects only; using
+    frame.f_trace_opcodes instead would switch instruction events on for the whole process in CPython 3.12)."""
+    import importlib
+
+    if _hot_installed:
+        return _hot_installed
+    mon = sys.monitoring
+    mon.use_tool_id(_HOT_TOOL, "pyab-sim")
+    for modname in ("pyab_experiment.experiment_evaluator", "pyab_experiment.utils.wraper_functions"):
+        mod = importlib.import_module(modname)
+        fn = getattr(mod, "__file__", "")
+        if os.path.basename(fn) not in HOT_FILES:
+            continue
+        for code in _code_objects_of(mod, fn):
+            mon.set_local_events(_HOT_TOOL, code, mon.events.INSTRUCTION)
+            _hot_installed.append(code)
+    classify = fc.classify
+    get_ident = _thread.get_ident
+
+    def on_instruction(code, offset):
+        s = _ACTIVE
+        if s is None:
+            return
+        t = s.by_ident.get(get_ident())
+        if t is None:
+            return
+        s.yield_point(t, 2, classify(code)[1], offset)
+
+    mon.register_callback(_HOT_TOOL, mon.events.INSTRUCTION, on_instruction)
+    return _hot_installed
 
 
 # ---------------------------------------------------------------------------
 # choosers
 # ---------------------------------------------------------------------------
+# Point classes: 1 = line event, 2 = opcode event in a publish/check-then-act file, 3 = operation boundary or
+# simulated-lock operation, 4 = sleep. The scheduler counts points per class; a chooser is consulted only when
+# the count of the point's class reaches the threshold it armed (`next_at`), so the common path is a few
+# integer operations. Thresholds are drawn from the PRNG (geometric gaps = Bernoulli switching per point).
+INF = 1 << 62
+
+
+def _geometric(rng, p):
+    """Number of Bernoulli(p) trials up to and including the first success."""
+    if p <= 0.0:
+        return INF
+    if p >= 1.0:
+        return 1
+    import math
+
+    u = rng.random()
+    return int(math.log(1.0 - u) / math.log(1.0 - p)) + 1
+
+
 class BernoulliChooser:
-    def __init__(self, rng, p_line, p_hot):
-        self.rng, self.p_line, self.p_hot = rng, p_line, p_hot
+    """Switch with probability p_line at line points and p_hot at opcode points (p_line == p_hot: plain Bernoulli;
+    p_hot >> p_line: 'targeted' at the publish / check-then-act code)."""
+
+    merge_hot = False
+
+    def __init__(self, rng, p_line, p_hot, p_boundary=0.3):
+        self.rng = rng
+        self.p = {1: p_line, 2: p_hot, 3: p_boundary, 4: 1.0}
+
+    def arm(self, sched, cls):
+        sched.next_at[cls] = sched.cnt[cls] + _geometric(self.rng, self.p[cls])
+
+    def start(self, sched):
+        for cls in (1, 2, 3, 4):
+            self.arm(sched, cls)
 
     def pick(self, sched, t, cls):
-        p = self.p_hot if cls >= 2 else self.p_line
-        if self.rng.random() >= p:
-            return None
+        self.arm(sched, cls)
         others = [x for x in sched.threads if x.state == RUNNABLE and x is not t]
         if not others:
             return None
@@ -198,7 +305,10 @@ class BernoulliChooser:
 
 
 class PCTChooser:
-    """Priority scheduling with d change points (Burckhardt et al.), adapted to yield points."""
+    """Priority scheduling with d change points (Burckhardt et al.), adapted to yield points: the runnable thread
+    with the highest priority runs; at each of d PRNG-chosen points the running thread drops below everybody."""
+
+    merge_hot = True      # opcode points count as line points: change points are positions in one stream
 
     def __init__(self, rng, n_threads, est_steps, d):
         self.rng = rng
@@ -207,30 +317,55 @@ class PCTChooser:
         self.change = sorted(rng.randrange(1, max(2, est_steps)) for _ in range(d))
         self.low = -1
 
-    def _best(self, sched, cand):
+    def _best(self, cand):
         return max(cand, key=lambda x: self.prio[x.idx])
 
+    def start(self, sched):
+        sched.next_at[1] = self.change[0] if self.change else INF
+        sched.next_at[2] = INF
+        sched.next_at[3] = 1
+        sched.next_at[4] = 1
+
     def pick(self, sched, t, cls):
-        if self.change and sched.step >= self.change[0]:
-            self.change.pop(0)
+        if cls == 1:
+            while self.change and sched.cnt[1] >= self.change[0]:
+                self.change.pop(0)
+            sched.next_at[1] = self.change[0] if self.change else INF
             self.prio[t.idx] = self.low
             self.low -= 1
+        else:
+            sched.next_at[cls] = sched.cnt[cls] + 1
+            if cls == 4:
+                self.prio[t.idx] = self.low     # a sleeper lets the others go first
+                self.low -= 1
         cand = [x for x in sched.threads if x.state == RUNNABLE]
-        b = self._best(sched, cand)
+        b = self._best(cand)
         return None if b is t else b
 
     def pick_forced(self, sched, runnable):
-        return self._best(sched, runnable)
+        return self._best(runnable)
 
 
 class ReplayChooser:
     """Explicit schedule: {(thread, its n-th decision point): next thread}."""
 
+    merge_hot = False
+    is_replay = True
+
     def __init__(self, decisions):
         self.dec = {(d[0], d[1]): d[2] for d in decisions}
+        self.by_thread = {}
+        for d in decisions:
+            self.by_thread.setdefault(d[0], {})[d[1]] = d[2]
+
+    def start(self, sched):
+        for cls in (1, 2, 3, 4):
+            sched.next_at[cls] = INF
+        for t in sched.threads:
+            t.replay = self.by_thread.get(t.idx, {})
 
     def pick(self, sched, t, cls):
-        to = self.dec.get((t.idx, t.ycount))
+        to = t.replay.get(t.ycount)
         if to is None or to == t.idx:
             return None
         x = sched.threads[to]
@@ -241,7 +376,7 @@ class ReplayChooser:
         to = self.dec.get((t.idx, t.ycount))
         if to is not None:
             x = sched.threads[to]
-            if x.state == RUNNABLE:
+            if x in runnable:
                 return x
         return runnable[0]
 
@@ -250,7 +385,7 @@ class ReplayChooser:
 # scheduler
 # ---------------------------------------------------------------------------
 class SimThread:
-    __slots__ = ("idx", "gate", "state", "ycount", "body", "blocked_on", "error", "ident", "timed", "timed_out")
+    __slots__ = ("idx", "gate", "state", "ycount", "body", "blocked_on", "error", "ident", "timed", "timed_out", "replay")
 
     def __init__(self, idx, body):
         self.idx = idx
@@ -264,12 +399,15 @@ class SimThread:
         self.ident = None
         self.timed = False
         self.timed_out = False
+        self.replay = None
 
 
 class Scheduler:
     def __init__(self, bodies, chooser, fc, step_cap=2_000_000, wall_cap=180.0):
         self.threads = [SimThread(i, b) for i, b in enumerate(bodies)]
         self.chooser = chooser
+        self.is_replay = getattr(chooser, "is_replay", False)
+        self.merge_hot = chooser.merge_hot
         self.fc = fc
         self.step = 0
         self.step_cap = step_cap
@@ -286,7 +424,9 @@ class Scheduler:
         self.main_gate.acquire()
         self.stats = {}
         self.hot_points = 0
-        self.run_len = 0
+        self.cnt = [0, 0, 0, 0, 0]
+        self.next_at = [INF, INF, INF, INF, INF]
+        self.fair_at = FAIRNESS_BOUND
 
     # -- called on the simulated threads ----------------------------------------
     def yield_point(self, t, cls, code_h, pos):
@@ -294,30 +434,40 @@ class Scheduler:
             if t.state != DONE and self.current is t:
                 raise Abort(self.abort)
             return
-        self.step += 1
-        t.ycount += 1
-        self.digest = ((self.digest * 1000003) ^ (t.idx * 7919 + code_h * 31 + pos)) & 0xFFFFFFFFFFFFFFFF
+        step = self.step = self.step + 1
+        n = t.ycount = t.ycount + 1
+        self.digest = hash((self.digest, t.idx, code_h, pos))
         if cls == 2:
             self.hot_points += 1
-        if self.step > self.step_cap:
+            if self.merge_hot:
+                cls = 1
+        c = self.cnt[cls] = self.cnt[cls] + 1
+        if self.is_replay:
+            if n not in t.replay:
+                if step > self.step_cap:
+                    self.abort = "step cap exceeded"
+                    raise Abort(self.abort)
+                return
+        elif c < self.next_at[cls] and step < self.fair_at:
+            return
+        if step > self.step_cap:
             self.abort = "step cap exceeded"
             raise Abort(self.abort)
-        to = self.chooser.pick(self, t, cls)
-        if to is None or to is t:
-            self.run_len += 1
-            if cls == 4 or self.run_len > FAIRNESS_BOUND:
-                # a sleeping thread, or one that ran very long (a spin-wait?), lets somebody else go first
-                others = [x for x in self.threads if x.state == RUNNABLE and x is not t]
-                if others and not isinstance(self.chooser, ReplayChooser):
-                    to = self.chooser.pick_forced(self, others)
+        if step >= self.fair_at and not self.is_replay and c < self.next_at[cls]:
+            # one thread ran very long (a spin-wait?): somebody else goes first
+            others = [x for x in self.threads if x.state == RUNNABLE and x is not t]
+            self.fair_at = step + FAIRNESS_BOUND
+            to = self.chooser.pick_forced(self, others) if others else None
+        else:
+            to = self.chooser.pick(self, t, cls)
         if to is not None and to is not t:
-            self.run_len = 0
             self._switch(t, to)
 
     def _switch(self, t, to):
         self.decisions.append((t.idx, t.ycount, to.idx))
         self.switches += 1
-        self.switch_digest = ((self.switch_digest * 1000003) ^ (self.digest + to.idx)) & 0xFFFFFFFFFFFFFFFF
+        self.switch_digest = hash((self.switch_digest, self.digest, to.idx))
+        self.fair_at = self.step + FAIRNESS_BOUND
         self.current = to
         to.gate.release()
         t.gate.acquire()
@@ -426,22 +576,14 @@ class Scheduler:
 
         def local_line(frame, event, arg):
             if event == "line":
-                yp(t, 1, classify(frame.f_code)[1], frame.f_lineno)
+                yp(t, 1, classify(frame.f_code)[1], frame.f_lasti)
             return local_line
-
-        def local_op(frame, event, arg):
-            if event == "opcode":
-                yp(t, 2, classify(frame.f_code)[1], frame.f_lasti)
-            return local_op
 
         def global_trace(frame, event, arg):
-            cls = classify(frame.f_code)[0]
-            if cls == 0:
-                return None
-            if cls == 2:
-                frame.f_trace_opcodes = True
-                return local_op
-            return local_line
+            # class 2 frames are pre-empted per instruction through sys.monitoring (install_hot_instrumentation)
+            if classify(frame.f_code)[0] == 1:
+                return local_line
+            return None
 
         return global_trace
 
@@ -455,7 +597,8 @@ class Scheduler:
             for t in self.threads:
                 t.state = RUNNABLE
                 _thread.start_new_thread(self._thread_main, (t,))
-            first = self.chooser.pick_forced(self, list(self.threads)) if not isinstance(self.chooser, ReplayChooser) \
+            self.chooser.start(self)
+            first = self.chooser.pick_forced(self, list(self.threads)) if not self.is_replay \
                 else self.threads[self.chooser.dec.get((-1, 0), 0)]
             self.decisions.append((-1, 0, first.idx))
             self.current = first
